@@ -82,6 +82,12 @@ CHECKS = {
         note="Trusted base: harness percent-encoder (cross-checked with urllib at start-up), urllib.parse.urlsplit/unquote for resolving, tokenizer T; Linux / UTF-8 / case-sensitive file system; temp dirs removed per case.",
         ref="2/C12",
     ),
+    "C13": dict(
+        technique="property-based round-trip: Hypothesis dependencies with metacharacter-dense fields serialised to the JSON <script> form (frame, case-insensitive end-tag scanner, json inverse), interleaved with arbitrary text and recovered by HTMLTextDocument (field-by-field equality, once per distinct serialisation, exact remaining text, first-occurrence placeholder replacement vs. markup assembled from the harness model D), token-stream agreement with HTMLDocument's head, JSON render mode == direct rendering",
+        text="Seeded generated-input search with inverse / differential oracles. Found and fixed the case-sensitive '</script>' neutralisation (known_findings.json). Exploration.",
+        note="Trusted base: json, regex scanner for end-tag-like text, dependency model D, tokenizer T; package sources name importable packages when URLs are computed.",
+        ref="2/C13",
+    ),
 }
 
 PENDING_REASON = "check not built yet in this revision (work in progress; see DESIGN.md section 2 for the planned generator and oracle)"
